@@ -69,6 +69,7 @@ def base_records(salt):
             rec("exon", 100, 300, [["ID", ["c"]], ["Parent", ["b"]], ["Note", ["n1"]]]),
             rec("CDS", 150, 250, [["ID", ["d"]], ["Parent", ["c"]]]),
             rec("exon", 400, 500, [["ID", ["e9"]], ["Parent", ["b", "ghost"]]]),
+            rec("exon", 280, 410, [["ID", ["e8"]], ["Parent", ["b"]]]),
             rec("gene", 1000, 2000, [["ID", ["g2"]], ["Note", ["x"]]]),
         ]
     recs = [
@@ -77,6 +78,7 @@ def base_records(salt):
         rec("exon", 100, 300, [["ID", ["c"]], ["Parent", ["b"]], ["Note", ["n1"]]]),
         rec("CDS", 150, 250, [["ID", ["d"]], ["Parent", ["c"]]]),
         rec("exon", 400, 500, [["Parent", ["b"]]]),
+        rec("exon", 280, 410, [["Parent", ["b"]]]),            # overlaps both exons above: merge() has something to merge
         rec("gene", 1000, 2000, [["ID", ["g2"]], ["Note", ["x"]]]),
         rec("mRNA", 1000, 2000, [["ID", ["m2"]], ["Parent", ["g2", "a"]]]),
         rec("region", 1, 5000, [["Note", ["whole"]]]),
